@@ -161,9 +161,9 @@ static Result exec(Solver &S, const World &W, const Step &st, const std::vector<
 }
 
 static void sub_history() {
-    // the 13 solver variants x 6 preconditioners are enumerated; scripts per configuration: quick 5 of length 6, thorough 100 of length <= 20
+    // the 13 solver variants x 6 preconditioners are enumerated; scripts per configuration: quick 5 of length 6, thorough 400 of length <= 20
     std::vector<SolverVariant> SV; for (const SolverCfg &c : vf::SOLVER_CFGS) SV.push_back(SolverVariant{c, false}); SV.push_back(SolverVariant{vf::SOLVER_CFGS[7], true});   // lgmres, always_reset = false
-    const int nscripts = (int)vf::tier(5, 100); long stride = vf::opt_int("stride", 1);
+    const int nscripts = (int)vf::tier(5, 400); long stride = vf::opt_int("stride", 1);
     for (size_t vi = 0; vi < SV.size(); ++vi) for (int pk = 0; pk < 6; ++pk) for (int si = 0; si < nscripts; ++si) {
         long idx = ((long)vi * 6 + pk) * nscripts + si;
         if (!vf::selected("history", idx) || idx % stride != 0) continue;
@@ -232,7 +232,7 @@ struct ThrowingJacobi {
     const M &system_matrix() const { return *A; }
 };
 static void sub_throwing() {
-    long N = vf::tier(60, 1500);
+    long N = vf::tier(60, 3000);
     for (long idx = 0; idx < N; ++idx) {
         if (!vf::selected("throwing", idx)) continue;
         Rng r(vf::case_seed("throwing", idx)); const SolverCfg &cfg = vf::SOLVER_CFGS[idx % 12]; SolverVariant sv{cfg, false};
@@ -262,7 +262,7 @@ static void sub_throwing() {
 // direct: skyline_lu histories (scratch vector y)
 //---------------------------------------------------------------------------
 static void sub_direct() {
-    long N = vf::tier(40, 800);
+    long N = vf::tier(40, 2000);
     for (long idx = 0; idx < N; ++idx) {
         if (!vf::selected("direct", idx)) continue;
         Rng r(vf::case_seed("direct", idx)); World W; build_world(W, r, r.coin());
